@@ -103,3 +103,10 @@ func typeIdx(ts *pdus.Tables, idx uint64) *pdus.Type { return ts.Types[int(idx%u
 
 // libTypeIdx is typeIdx with library-only struct fields included.
 func libTypeIdx(ts *pdus.Tables, idx uint64) *pdus.Type { return typeIdx(ts, idx).Lib() }
+
+func min(a, b int) int {
+	if a < b {
+		return a
+	}
+	return b
+}
